@@ -274,3 +274,33 @@ func okNarrowMasked(n uint32) uint8 {
 func badNarrowUnchecked(n int) uint16 {
 	return uint16(n)
 }
+
+// ---------------------------------------------------------------- error classes (C03.6)
+
+var (
+	errMore   = errors.New("need more")
+	errNotMe  = errors.New("not mine")
+	errNotMe2 = fmt.Errorf("%w: really", errNotMe)
+)
+
+func classify(b []byte) error {
+	if len(b) < 4 {
+		return errMore
+	}
+	return fmt.Errorf("%w: no match", errNotMe)
+}
+
+func okErrClassSentinels(b []byte) error {
+	if len(b) == 0 {
+		return errNotMe2
+	}
+	return classify(b)
+}
+
+func badErrClassLeaksLibraryError(b []byte) error {
+	if err := classify(b); err != nil {
+		return err
+	}
+	_, err := io.ReadFull(nil, b)
+	return err
+}
